@@ -86,10 +86,11 @@ def _case(draw):
             elif kind == 'deepmissing':
                 # the last four are not nodes of the config although the *evaluated* value of their prefix could be subscripted that way
                 s['to'] = draw(st.sampled_from([['d1', 'x'], ['d2', 7], ['d3', 'm', 'zz'], ['box', 'none'],
-                                                ['s1', 0], ['s1', -1], ['f1', 'called'], ['f1', 'kw']]))
+                                                ['s1', 0], ['s1', -1], ['f1', 'called'], ['f1', 'kw'],
+                                                ['f3', -1], ['f3', -2], ['f3', -3]]))       # (arguments of a function node are not counted from the end)
             else:
                 s['to'] = s['path']
-    order = draw(st.permutations(['d1', 'd2', 'd3', 'f1', 'f2', 'box', 'arr', 'e1', 'e2', 'e0', 's1', 'd3.m', 'd2[1]'] + [s['path'][0] for s in slots if len(s['path']) == 1]))
+    order = draw(st.permutations(['d1', 'd2', 'd3', 'f1', 'f2', 'box', 'arr', 'e1', 'e2', 'e0', 's1', 'd3.m', 'd2[1]', 'f3'] + [s['path'][0] for s in slots if len(s['path']) == 1]))
     ndocs = draw(st.integers(1, 3))
     split = [draw(st.integers(0, ndocs - 1)) for _ in order]
     # an earlier document may already hold something else under the key of a top-level reference: a plain string spelled exactly like
@@ -116,6 +117,7 @@ def docs(case):
         'd2': tdoc.sq([tdoc.sc(1), tdoc.mp([('k', tdoc.sc(2))], flow=True)], flow=True),
         'd3': tdoc.mp([('m', tdoc.mp([('n', tdoc.sc(3))], flow=True)), ('l', tdoc.sq([tdoc.sc(4), tdoc.sc(5)], flow=True)), ('z', tdoc.sq([], flow=True))]),
         'e1': tdoc.sq([], flow=True), 'e2': tdoc.mp([], flow=True), 'e0': tdoc.sc(0.0), 's1': tdoc.sc('resnet'),
+        'f3': tdoc.mp([(0, tdoc.sq([tdoc.sc(10)], flow=True)), (1, tdoc.sq([tdoc.sc(11)], flow=True)), ('sep', tdoc.sq([tdoc.sc(12)], flow=True))], flow=True, tag='!bind:vfrec.call_3'),
         'd3.m': tdoc.sq([tdoc.sc(77)], flow=True), 'd2[1]': tdoc.sc(78),     # flat keys spelled like the paths d3.m and d2[1]: never what a reference means
         'f1': tdoc.mp([], flow=True, tag='!call:vfrec.call_1'),
         'f2': tdoc.mp([('x', tdoc.sc(0))] + [(s['path'][1], ref(s)) for s in slots if s['path'][0] == 'f2'], tag='!call:vfrec.call_2'),
